@@ -250,6 +250,8 @@ FMix == Func("f", <<"a", "b">>, <<"r", "s">>, <<"t">>,
       IfSt(<<Bin(">", Rr, I(3)), Blk(<<Asg(Rs, Bin("-", Rr, I(1))), Asg(Rt, I(5))>>),
                                  Blk(<<Asg(Rs, Bin("+", Rt, Rr)), Asg(Rt, I(2))>>)>>),
       ForSt("i", I(1), I(3), <<Asg(Rr, Bin("+", Rr, Bin("*", Ri, Rt)))>>)>>)
+FShare == Func("f", <<"a", "b">>, <<"r">>, <<>>, <<Asg(Rr, Bin("/", Ra, Rb))>>)                     \* f(3 + 4, 2) = 3.5
+FMean  == Func("f", <<"a", "b">>, <<"r">>, <<"t">>, <<Asg(Rt, Bin("+", Ra, Rb)), Asg(Rr, Bin("/", Rt, I(4)))>>)
 (* if-statement whose not-selected branch has no value (division by zero) *)
 FGuard == Func("f", <<"a", "b">>, <<"r">>, <<>>,
     <<IfSt(<<Bin(">", Call("abs", <<Rb>>), I(0)), Blk(<<Asg(Rr, Bin("/", Ra, Rb))>>), Blk(<<Asg(Rr, Ra)>>)>>)>>)
@@ -315,15 +317,44 @@ IdxMatEqs(r, c) ==
               lo \in {0, 1}, hi \in {c, c + 1}, k \in {-1, 0, 1}, j \in {1, r + 1}}
     \cup {<<ForEq("i", I(lo), I(hi), <<Eq(Idx("A", <<Ri, I(j)>>), Ref("x"))>>)>> : lo \in {0, 1}, hi \in {r, r + 1}, j \in {0, 1, c, c + 1}}
 
+(* subscripts given by constant EXPRESSIONS (they reach the generator as integers, not as negated literals):
+   a - b of literals, m - k with the Integer parameter m, an Integer constant j declared as such an expression;
+   value i over the window -n .. n+2, in plain equations, slices, for-loop bodies and on matrices *)
+ConstSub(i) == Bin("-", I(i + 4), I(4))                                        \* (i + 4) - 4, both literals non-negative
+ParamSub(i, n) == IF i <= n THEN Bin("-", Ref("m"), I(n - i)) ELSE Bin("+", Ref("m"), I(i - n))    \* m = n
+JComp(i, n) == Comp("j", "Integer", "constant", <<>>, <<Mod("value", ParamSub(i, n))>>)
+WinX(n) == (-n)..(n + 2)
+IdxConstItems(n, r, c) ==
+    UNION {{Item("index", Prog(IdxComps(n, r, c) \o <<JComp(i, n)>>, eqs, <<>>, <<>>), {"vec", "const-expr-subscript"}) :
+              eqs \in {<<Eq(Ref("x"), Idx("z", <<ConstSub(i)>>))>>,
+                        <<Eq(Idx("z", <<ConstSub(i)>>), Ref("x"))>>,
+                        <<Eq(Ref("x"), Idx("z", <<ParamSub(i, n)>>))>>,
+                        <<Eq(Ref("x"), Idx("z", <<Ref("j")>>))>>,
+                        <<Eq(Ref("x"), Idx("z", <<Bin("+", Ref("j"), Bin("-", I(1), I(1)))>>))>>,
+                        <<Eq(Ref("x"), Call("sum", <<Idx("z", <<Slice(ConstSub(i), I(n))>>)>>))>>,
+                        <<ForEq("i", I(1), I(n), <<Eq(Idx("w", <<Ri>>), Bin("*", Ri, Idx("z", <<ConstSub(i)>>)))>>)>>,
+                        <<ForEq("i", I(1), Ref("m"), <<Eq(Idx("w", <<Ri>>), Idx("z", <<Ref("j")>>))>>)>>}} : i \in WinX(n)}
+    \cup UNION {{Item("index", Prog(IdxComps(n, r, c) \o <<JComp(1, n)>>, eqs, <<>>, <<>>), {"mat", "const-expr-subscript"}) :
+              eqs \in {<<Eq(Ref("x"), Idx("A", <<I(1), ConstSub(i)>>))>>, <<Eq(Ref("x"), Idx("A", <<ConstSub(i), I(c)>>))>>,
+                        <<Eq(Idx("A", <<Ref("j"), ConstSub(i)>>), Ref("x"))>>}} : i \in (-c)..(c + 2)}
+
 IndexItems(tier) ==
     UNION {{Item("index", Prog(IdxComps(n, 2, 3), eqs, <<>>, <<>>), {"vec"}) : eqs \in IdxVecEqs(n)} : n \in NSizes(tier)}
     \cup UNION {{Item("index", Prog(IdxComps(3, s[1], s[2]), eqs, <<>>, <<>>), {"mat"}) : eqs \in IdxMatEqs(s[1], s[2])} : s \in MShapes(tier)}
+    \cup UNION {IdxConstItems(n, 2, 3) : n \in NSizes(tier)}
 
 -----------------------------------------------------------------------------
 (* "opt" (C12): every program with a for-loop or a function call, a few with attributes (metadata must not
    depend on the options either) and with delay() (delay arguments; uninterpreted here, compared across options) *)
 HasLoopOrCall(P) == P.funcs # <<>> \/ (\E i \in DOMAIN P.eqs : P.eqs[i].k = "for") \/ (\E j \in DOMAIN P.ieqs : P.ieqs[j].k = "for")
+(* attributes given by calls of the program's function f with constant-expression arguments (their value need not be
+   an integer), on Real, Integer and Boolean variables: the representation of a call must not leak into metadata *)
+CallAttr(a, b) == Call("f", <<a, b>>)
 AttrComps == << Comp("x", "Real", "", <<>>, <<Mod("start", Bin("*", I(2), Ref("p"))), Mod("max", Bin("+", Ref("p"), I(3)))>>),
+                Comp("ww", "Real", "", <<>>, <<Mod("max", CallAttr(Bin("+", I(3), I(4)), I(2))), Mod("nominal", Bin("*", I(2), I(3)))>>),
+                Comp("kk", "Integer", "", <<>>, <<Mod("max", CallAttr(Bin("+", I(3), I(4)), I(2))), Mod("min", Un("-", CallAttr(Bin("+", Lit(Q(1, 2)), I(1)), I(4)))),
+                                                  Mod("start", I(2))>>),
+                Comp("bb", "Boolean", "", <<>>, <<Mod("start", Bin(">", CallAttr(I(7), I(2)), I(3)))>>),
                 Comp("y", "Real", "", <<>>, <<Mod("nominal", I(2)), Mod("fixed", BLit(TRUE))>>),
                 Comp("z", "Real", "", <<3>>, <<EachMod("min", Un("-", Ref("p"))), Mod("start", Arr(<<I(1), I(2), I(3)>>))>>),
                 Comp("w", "Real", "", <<3>>, <<>>), Param("p", RI(2)), IParam("m", 3), Comp("k", "Integer", "", <<>>, <<Mod("max", I(7))>>) >>
@@ -331,7 +362,16 @@ OptItems(tier) ==
     {[it EXCEPT !.fam = "opt"] : it \in {x \in FuncItems(tier) \cup EqItems(tier) : HasLoopOrCall(x.prog)}}
     \cup {Item("opt", Prog(AttrComps, <<ForEq("i", I(1), Ref("m"), <<Eq(Idx("z", <<Ri>>), Bin("*", Ri, Idx("w", <<Ri>>)))>>),
                                         Eq(Ref("x"), Call("f", <<Ref("y"), Ref("p")>>))>>,
-                             <<Eq(Ref("y"), I(1))>>, <<fd>>), {"with-attributes"}) : fd \in {FStraight, FFor(1, 3), FMix}}
+                             <<Eq(Ref("y"), I(1))>>, <<fd>>), {"with-attributes"}) : fd \in {FStraight, FFor(1, 3), FMix, FShare, FMean}}
+    (* tiny literal coefficients (1e-9 .. 1e-13): every term of these residual rows is tiny, so a representation that
+       loses digits of a small constant changes them relatively a lot *)
+    \cup {Item("opt", Prog(FuncComps, eqs, ieqs, fds), {"tiny-coefficients"}) :
+            eqs \in {<<Eq(Bin("*", SciLit(1, 9), Ref("x")), Bin("*", SciLit(12345, 13), Ref("y"))),
+                       ForEq("i", I(1), I(3), <<Eq(Bin("*", SciLit(1, 9), Idx("z", <<Ri>>)), Bin("*", Bin("*", SciLit(33, 14), Ri), Ref("x")))>>)>>,
+                      <<Eq(Bin("*", SciLit(1, 12), Ref("y")), Call("f", <<Ref("x"), SciLit(4, 13)>>)),
+                        ForEq("i", I(1), I(3), <<Eq(Bin("*", SciLit(2, 12), Idx("z", <<Ri>>)), Call("f", <<Idx("z", <<Ri>>), SciLit(31, 14)>>))>>)>>},
+            ieqs \in {<<Eq(Bin("*", SciLit(5, 10), Ref("x")), Bin("*", SciLit(271828, 15), Ref("p")))>>},
+            fds \in {<<FStraight>>, <<FFor(1, 3)>>}}
     \cup {Item("opt", Prog(FuncComps, <<Eq(Ref("x"), Call("delay", <<Ref("y"), Ref("p")>>))>>, <<>>, <<>>), {"delay"}),
           Item("opt", Prog(FuncComps, <<Eq(Ref("x"), Call("delay", <<Bin("*", I(2), Ref("y")), Bin("*", I(3), Ref("p"))>>)),
                                        ForEq("i", I(1), I(3), <<Eq(Idx("z", <<Ri>>), Bin("*", Ri, Ref("x")))>>)>>, <<>>, <<>>), {"delay"}),
